@@ -240,8 +240,9 @@ loadBinaryEdgeList(
     VertexIndex vertex1, vertex2;
     EdgeLabel label;
     while (readBinaryValue(fileStream, vertex1)) {
-        readBinaryValue(fileStream, vertex2);
-        fromBinary(fileStream, label);
+        if (!readBinaryValue(fileStream, vertex2) ||
+            !fromBinary(fileStream, label))
+            break;
 
         if (vertex1 >= returnedGraph.getSize())
             returnedGraph.resize(vertex1 + 1);
@@ -265,7 +266,8 @@ loadBinaryEdgeList(const std::string &fileName) {
     VertexIndex vertex1, vertex2;
     NoLabel label;
     while (readBinaryValue(fileStream, vertex1)) {
-        readBinaryValue(fileStream, vertex2);
+        if (!readBinaryValue(fileStream, vertex2))
+            break;
 
         if (vertex1 >= returnedGraph.getSize())
             returnedGraph.resize(vertex1 + 1);
